@@ -20,7 +20,7 @@ func init() {
 		ID:    "C16",
 		Title: "Packet type dispatch follows the first byte and header flags are preserved",
 		Level: "model_checking",
-		Rule: "complete enumeration of all 256 first bytes x the bodies valid for the selected type taken from the specification encoder (minimal, rich, remaining length 0 where the type allows, every short form; for PUBLISH the body matches the QoS bits of that first byte: packet identifier present for QoS 1/2, absent for 0 and for the reserved combination 3), a frame of every remaining length 0..300 (and mined lengths) for every type, and every frame of the valid corpus V (~2.7k frames, one per field shape) under every flag nibble that keeps its body valid, and every specification-valid frame of the dense strata F8 (mid-range lengths of every field, pairs of lengths, special contents in every string field under all 256 reason codes, list lengths); the 256 x bodies frames also arrive byte by byte with idle reads in between and after runs of 99, 100 and 250 idle reads (100 and more: a rejection is acceptable, another type is not); every frame is read through ten reader implementations (scripted, bufio 16/4096/pre-filled, own type with Peek/Discard, LimitedReader, own type with an unrelated Len() method, bytes.Buffer, bytes.Reader, strings.Reader). " +
+		Rule: "complete enumeration of all 256 first bytes x the bodies valid for the selected type taken from the specification encoder (minimal, rich, remaining length 0 where the type allows, every short form; for PUBLISH the body matches the QoS bits of that first byte: packet identifier present for QoS 1/2, absent for 0 and for the reserved combination 3; PUBLISH also with payloads of 1024, 4096, 8192 and 65536 bytes and of every size that occurs as a constant in the tree under test, under each of the 16 flag nibbles), a frame of every remaining length 0..300 (and mined lengths) for every type, and every frame of the valid corpus V (~2.7k frames, one per field shape) under every flag nibble that keeps its body valid, and every specification-valid frame of the dense strata F8 (mid-range lengths of every field, pairs of lengths, special contents in every string field under all 256 reason codes, list lengths); the 256 x bodies frames also arrive byte by byte with idle reads in between and after runs of 99, 100 and 250 idle reads (100 and more: a rejection is acceptable, another type is not); every frame is read through ten reader implementations (scripted, bufio 16/4096/pre-filled, own type with Peek/Discard, LimitedReader, own type with an unrelated Len() method, bytes.Buffer, bytes.Reader, strings.Reader). " +
 			"Oracle: the dynamic type is the one selected by the upper nibble (0 yields Undefined whose Data() equals the body); a PUBLISH reports DUP, QoS and RETAIN of the lower nibble; for types 1-15 writing the decoded packet reproduces the same first byte. distinct_nontrivial = distinct (first byte, body) pairs.",
 		Assumptions: []string{"decoding must succeed for the body to be judged: bodies come from the valid-frame language"},
 		Run:         runC16,
@@ -64,6 +64,27 @@ func c16Bodies(t byte, flags byte) [][]byte {
 				p.Flags = flags &^ 6
 				p.PacketID = 0
 			}
+			body(p, spec.Form{})
+		}
+		// payload sizes: what a decoder or encoder does with the flags must
+		// not depend on how much follows them (size-dependent paths: pooled
+		// buffers, vectored writes; thresholds mined from the tree under test)
+		sizes := []int{1024, 4096, 8192, 65536}
+		for _, n := range Mined.Lens {
+			if n > 300 && n <= 70000 && len(sizes) < 10 {
+				sizes = append(sizes, n)
+			}
+		}
+		for _, n := range sizes {
+			p := minimalPacket(3)
+			p.Flags = flags
+			if q == 1 || q == 2 {
+				p.PacketID = 0x0102
+			} else {
+				p.Flags = flags &^ 6
+				p.PacketID = 0
+			}
+			p.Payload = gen.Content('L', n)
 			body(p, spec.Form{})
 		}
 		return out
